@@ -57,7 +57,7 @@ def configs(draw, wrappers=("interval",), allow_cache0=True, allow_dt=True, allo
     cfg = {"wrapper": wrapper, "t0": t0, "t1": t1, "shape": shape, "levy": lv, "entropy": entropy, "dtype": dtype,
            "cache_size": 45, "dt": None, "tol": 0.0, "halfway": False, "user_W": False, "user_H": False,
            "grid": draw(st.sampled_from(GRIDS))}
-    if wrapper in ("interval", "reverse"):
+    if wrapper in ("interval", "reverse", "reverse2"):
         sizes = [0, 1, 2, 5, 45, None] if allow_cache0 else [1, 2, 5, 45, None]
         cfg["cache_size"] = draw(st.sampled_from(sizes))
         if allow_halfway and allow_tol and draw(_one_in(4)):
@@ -87,7 +87,13 @@ def configs(draw, wrappers=("interval",), allow_cache0=True, allow_dt=True, allo
         cfg["cache_size"] = None
         cfg["levy"] = "none"
     if cfg["tol"] > 0:
-        # keep the end points and the grid on the tolerance lattice
+        # keep the end points and the grid on the tolerance lattice (the library's rounding grid 10^-ndigits, which is
+        # coarser than tol itself when tol is not a power of ten): the property speaks of resolved times
+        nd = ndigits_of(cfg["tol"])
+        cfg["t0"] = round(cfg["t0"], nd)
+        cfg["t1"] = round(cfg["t0"] + span, nd)
+        if not cfg["t1"] > cfg["t0"]:
+            cfg["t1"] = cfg["t0"] + 1.0
         cfg["grid"] = draw(st.sampled_from([g for g in (100, 1000, 10 ** 6) if g <= round(1 / cfg["tol"])] or [100]))
     return cfg
 
@@ -207,7 +213,7 @@ def build(cfg, torchsde, torch):
     if cfg.get("user_H"):
         H = torch.randn(shape, dtype=dtype, generator=g) * math.sqrt(span / 12)
     wrapper = cfg["wrapper"]
-    if wrapper in ("interval", "reverse"):
+    if wrapper in ("interval", "reverse", "reverse2"):
         kw = dict(t0=cfg["t0"], t1=cfg["t1"], size=shape, dtype=dtype, entropy=cfg["entropy"],
                   cache_size=cfg["cache_size"], levy_area_approximation=cfg["levy"], tol=cfg["tol"],
                   halfway_tree=cfg["halfway"], W=W, H=H)
@@ -220,6 +226,10 @@ def build(cfg, torchsde, torch):
         if wrapper == "reverse":
             rev = torchsde._brownian.ReverseBrownian(interval)
             base = lambda ta, tb, **k: rev(-tb, -ta, **k)  # noqa: E731
+        elif wrapper == "reverse2":
+            # reversing a reversed Brownian motion gives the original one back (what a reverse solve of a run that was
+            # itself driven by a ReverseBrownian, e.g. a double backward, relies on)
+            base = torchsde._brownian.ReverseBrownian(torchsde._brownian.ReverseBrownian(interval))
     elif wrapper == "path":
         w0 = torch.randn(shape, dtype=dtype, generator=g) + 2.0
         obj = torchsde.BrownianPath(t0=cfg["t0"], w0=w0)
@@ -235,13 +245,13 @@ def build(cfg, torchsde, torch):
         base = obj
     else:
         raise ValueError(wrapper)
-    have_H = cfg["levy"] in ("space-time", "davie", "foster") and wrapper in ("interval", "reverse")
-    have_A = cfg["levy"] in ("davie", "foster") and wrapper in ("interval", "reverse")
+    have_H = cfg["levy"] in ("space-time", "davie", "foster") and wrapper in ("interval", "reverse", "reverse2")
+    have_A = cfg["levy"] in ("davie", "foster") and wrapper in ("interval", "reverse", "reverse2")
 
     def bm(ta, tb):
         if ta is None:
             # point evaluation
-            if wrapper == "reverse":
+            if wrapper in ("reverse", "reverse2"):
                 return interval(cfg["t0"], tb), None, None
             return base(tb), None, None
         if have_A:
